@@ -245,13 +245,12 @@ impl AstNode for StakeDelegationCertificate {
     const RULE: Rule = Rule::cardano_stake_delegation_certificate;
 
     fn parse(pair: Pair<Rule>) -> Result<Self, Error> {
-        let span = pair.as_span().into();
-        let mut inner = pair.into_inner();
-
-        Ok(StakeDelegationCertificate {
-            pool: DataExpr::parse(inner.next().unwrap())?,
-            stake: DataExpr::parse(inner.next().unwrap())?,
-            span,
+        // the grammar accepts this block but neither the AST builder nor the lowering
+        // support it yet: report it instead of panicking later on
+        Err(Error {
+            message: "stake_delegation_certificate is not supported yet".to_string(),
+            src: pair.as_str().to_string(),
+            span: Span::new(0, pair.as_str().len()),
         })
     }
 
